@@ -41,11 +41,13 @@ type FuncContract struct {
 	File     string
 	Havoc    []string // extra components havocked by a trusted function
 	NoRead   []*Node  // read frame: locations that must not be read
+	Replay   []*Clause // named input expressions whose model values are handed to the replay template
 	Unshared []string // parameters that name objects no other goroutine can reach yet (exempt from lock discipline)
 	Synth    bool     // synthesised for the lock-discipline sweep (no clauses)
 }
 
 type CaseContract struct {
+	Replay   []*Clause
 	Name     string
 	Guard    *Node
 	Props    []string
@@ -147,7 +149,7 @@ type cline struct {
 
 var topKeywords = map[string]bool{"spec": true, "lemma": true, "axiom": true, "ghost": true, "func": true, "closed": true, "guarded": true, "pred": true, "discipline": true}
 var clauseKeywords = map[string]bool{"requires": true, "ensures": true, "modifies": true, "loop": true, "use": true, "case": true,
-	"assert": true, "using": true, "hint": true, "havoc": true, "noread": true, "unshared": true}
+	"assert": true, "using": true, "hint": true, "havoc": true, "noread": true, "unshared": true, "replay": true}
 
 func (c *Contracts) parseFile(path string) error {
 	data, err := os.ReadFile(path)
@@ -328,7 +330,7 @@ func (c *Contracts) parseFile(path string) error {
 			}
 			curCase = &CaseContract{Name: strings.TrimSpace(rest[:i]), Guard: g, Props: props}
 			curFunc.Cases = append(curFunc.Cases, curCase)
-		case "requires", "ensures", "assert":
+		case "requires", "ensures", "assert", "replay":
 			if curFunc == nil {
 				return fmt.Errorf("%s: %s outside func", it.pos, kw)
 			}
@@ -337,6 +339,13 @@ func (c *Contracts) parseFile(path string) error {
 				return err
 			}
 			switch {
+			case kw == "replay":
+				// replay <name>: <expr> - an input of the function, for counterexample replay (value taken from the model)
+				if curCase != nil {
+					curCase.Replay = append(curCase.Replay, cl)
+				} else {
+					curFunc.Replay = append(curFunc.Replay, cl)
+				}
 			case kw == "assert":
 				curFunc.Asserts = append(curFunc.Asserts, cl)
 			case curCase != nil && kw == "requires":
